@@ -23,6 +23,8 @@ structure Obs where
   /-- ids whose `QueueMessage` call started after `Disconnect()` had returned -/
   after : List Nat
   leak : Bool
+  /-- channel capacities of the tree under test: outputQueue, sendQueue, sendDoneQueue, stallControl -/
+  caps : Nat × Nat × Nat × Nat
   deriving Repr
 
 def Obs.prodIds (o : Obs) (i : Nat) : List Nat := (List.range o.nMsg).map (fun j => i * 1000 + j)
@@ -32,7 +34,9 @@ def Obs.ids (o : Obs) : List Nat := (List.range o.nProd).flatMap o.prodIds
 /-- Program order of the callers: each producer queues its messages one after the other. -/
 def progPred (m : Nat) : Option Nat := if m % 1000 = 0 then none else some (m - 1)
 
-def obsCfg : Cfg := ⟨50, false, false, progPred⟩
+/-- Channel capacities are read from the tree by the harness and passed on the line. -/
+def obsCfg (cap capSend capDone capStall : Nat) : Cfg :=
+  ⟨cap, capSend, capDone, capStall, false, false, progPred⟩
 
 /-- Per producer: (sent-before-disconnect but not written, lost one if any, the rest). -/
 def Obs.split (o : Obs) (i : Nat) : List Nat × Option Nat × List Nat :=
@@ -64,9 +68,10 @@ def witness (o : Obs) : List Choice :=
 def unexplained (o : Obs) : Option String :=
   if o.leak then some "goroutine-leak"
   else if !o.multi.isEmpty then some "done-signalled-twice"
-  else if o.nProd > 50 ∨ o.nMsg > 1000 then some "bad-config"
+  else if o.nProd > 1000 ∨ o.nMsg > 1000 ∨ o.caps.1 = 0 ∨ o.caps.2.1 = 0 ∨ o.caps.2.2.1 = 0 ∨ o.caps.2.2.2 = 0 then
+    some "bad-config"
   else
-    let s := exec obsCfg (init o.ids) (witness o)
+    let s := exec (obsCfg o.caps.1 o.caps.2.1 o.caps.2.2.1 o.caps.2.2.2) (init o.ids) (witness o)
     if !final s then some "model-not-final"
     else if s.written != o.written then some "written-order-not-producible"
     else if !(s.todo.isEmpty && s.checked.isEmpty) then some "calls-not-producible"
@@ -92,10 +97,12 @@ closes. -/
 def prestartRun (n : Nat) (fail : Bool) : Sys :=
   let ids := List.range n
   let q := ids.flatMap (fun m => [Choice.check m, .send m])
+  -- the harness queues at most as many messages as `outputQueue` holds
+  let cfg := obsCfg (n + 1) 1 1 1
   if fail then
-    exec obsCfg (init ids) (q ++ [.disconnect, .abandon] ++ List.replicate (n + 1) .aStep)
+    exec cfg (init ids) (q ++ [.disconnect, .abandon] ++ List.replicate (n + 1) .aStep)
   else
-    exec obsCfg (init ids) (q ++ [.start] ++
+    exec cfg (init ids) (q ++ [.start] ++
       ids.flatMap (fun _ => [Choice.qRecvOut, .oRecv, .oStep, .sRecv, .oStep, .oStep, .oStep, .qRecvDone]) ++
       [.disconnect] ++ shutdown (n + 4))
 
